@@ -9,6 +9,7 @@ package main
 // greatest fixed point over the region reachable from a stated entry point.
 
 import (
+	"strconv"
 	"fmt"
 	"go/constant"
 	"go/token"
@@ -250,6 +251,10 @@ type Derivation struct {
 type RuleSet struct {
 	Atoms  []AtomDef
 	Derive []Derivation
+	// DeriveDyn derives dynamically named atoms from the atoms of a state
+	// (called while closing a state), e.g. a bound with a small constant from
+	// a relational fact whose right-hand side became a constant by translation.
+	DeriveDyn func(has func(Atom) bool, each func(func(Atom))) []Atom
 	// DynComplement enables the complement treatment for the dynamic pair
 	// v:nn:<x> / v:nil:<x>.
 	DynComplement bool
@@ -291,6 +296,8 @@ type Flow struct {
 	// constant.
 	phiGen  map[*ssa.BasicBlock][]phiIn
 	edgeSt  map[[2]*ssa.BasicBlock]AtomSet
+	// dyn: kind ("err"|"true"|"false") -> function -> result index -> parametric facts
+	dyn map[string]map[*ssa.Function]map[int][]Atom
 	mcache  map[*ssa.Function]*Matcher
 	Rounds  int
 }
@@ -304,7 +311,10 @@ type phiIn struct {
 type sumRef struct {
 	fn   *ssa.Function
 	idx  int
-	kind string // "err" | "true"
+	kind string // "err" | "true" | "false"
+	// call is the call whose result is tested (for translating the callee's
+	// parametric facts "v:..:$i.." to the caller's argument names)
+	call ssa.CallInstruction
 }
 
 func (p *Prog) matcher(fn *ssa.Function) *Matcher {
@@ -317,7 +327,8 @@ func NewFlow(p *Prog, rs *RuleSet, roots []*ssa.Function, skip func(*ssa.Functio
 		ctx: map[*ssa.Function]AtomSet{}, sumErr: map[*ssa.Function]map[int]AtomSet{}, sumTrue: map[*ssa.Function]map[int]AtomSet{},
 		in: map[*ssa.BasicBlock]AtomSet{}, gen: map[*ssa.BasicBlock][2][]Atom{}, genSum: map[*ssa.BasicBlock][2][]sumRef{},
 		exec: map[ssa.Instruction][]Atom{}, kill: map[ssa.Instruction][]Atom{}, mcache: map[*ssa.Function]*Matcher{},
-		phiGen: map[*ssa.BasicBlock][]phiIn{}, edgeSt: map[[2]*ssa.BasicBlock]AtomSet{}}
+		phiGen: map[*ssa.BasicBlock][]phiIn{}, edgeSt: map[[2]*ssa.BasicBlock]AtomSet{},
+		dyn: map[string]map[*ssa.Function]map[int][]Atom{"err": {}, "true": {}, "false": {}}}
 	f.Region = p.Reachable(roots, func(fn *ssa.Function) bool {
 		if fn.Pkg != nil && isHarnessPkg(fn.Pkg.Pkg.Path()) {
 			return true
@@ -438,13 +449,14 @@ func (f *Flow) condGenPred(m *Matcher, pred Pred, onTrue bool) (g [2][]Atom, gs 
 		// call result (a key, a pointer) must not be read as "callee succeeded"
 		if call, idx := m.CallResult(pred.X); call != nil && isErrorType(pred.X.Type()) {
 			if cal := f.P.body(call.Common().StaticCallee()); cal != nil {
-				gs[holdIdx] = append(gs[holdIdx], sumRef{cal, idx, "err"})
+				gs[holdIdx] = append(gs[holdIdx], sumRef{cal, idx, "err", call})
 			}
 		}
 	case "bool":
 		if call, idx := m.CallResult(pred.X); call != nil {
 			if cal := f.P.body(call.Common().StaticCallee()); cal != nil {
-				gs[holdIdx] = append(gs[holdIdx], sumRef{cal, idx, "true"})
+				gs[holdIdx] = append(gs[holdIdx], sumRef{cal, idx, "true", call})
+				gs[otherIdx] = append(gs[otherIdx], sumRef{cal, idx, "false", call})
 			}
 		}
 	}
@@ -457,12 +469,25 @@ func isErrorType(t types.Type) bool {
 }
 
 func (f *Flow) close(s AtomSet) AtomSet {
-	if s.top || (len(f.RS.Derive) == 0 && len(f.RS.Complement) == 0 && !f.RS.DynComplement) {
+	if s.top || (len(f.RS.Derive) == 0 && len(f.RS.Complement) == 0 && !f.RS.DynComplement && f.RS.DeriveDyn == nil) {
 		return s
 	}
 	changed := true
 	for changed {
 		changed = false
+		if f.RS.DeriveDyn != nil {
+			add := f.RS.DeriveDyn(func(a Atom) bool { return s.m[a] }, func(fn func(Atom)) {
+				for a := range s.m {
+					fn(a)
+				}
+			})
+			for _, a := range add {
+				if !s.m[a] {
+					s = s.with(a)
+					changed = true
+				}
+			}
+		}
 		if len(f.RS.Complement) > 0 || f.RS.DynComplement {
 			for a := range s.m {
 				i := strings.Index(a, "=>")
@@ -586,15 +611,24 @@ func (f *Flow) edgeOut(b *ssa.BasicBlock, out AtomSet, i int) AtomSet {
 // successful return (its summary is TOP), i.e. the edge cannot be taken.
 func (f *Flow) applySums(s AtomSet, refs []sumRef) (AtomSet, bool) {
 	for _, sr := range refs {
+		if !f.Region[sr.fn] {
+			continue
+		}
+		// parametric facts of the callee, renamed to this call's arguments
+		if sr.call != nil {
+			if dyn := f.dyn[sr.kind][sr.fn][sr.idx]; len(dyn) > 0 {
+				s = s.with(translateDyn(dyn, sr.call)...)
+			}
+		}
+		if sr.kind == "false" {
+			continue // no static summary for the false outcome
+		}
 		var sum AtomSet
 		var ok bool
 		if sr.kind == "err" {
 			sum, ok = f.sumErr[sr.fn][sr.idx]
 		} else {
 			sum, ok = f.sumTrue[sr.fn][sr.idx]
-		}
-		if !f.Region[sr.fn] {
-			continue
 		}
 		if !ok {
 			sum = topSet() // optimistic start
@@ -922,6 +956,9 @@ func (f *Flow) solve() {
 				changed = true
 			}
 			f.sumErr[fn], f.sumTrue[fn] = se, st
+			if f.summarizeDyn(fn) {
+				changed = true
+			}
 		}
 		// recompute calling contexts
 		for _, fn := range f.Order {
@@ -1063,4 +1100,214 @@ func isResultSpill(fn *ssa.Function, al *ssa.Alloc, i int) bool {
 	}
 	name := res.At(i).Name() // "" for unnamed results, which go/ssa also spills when the function defers
 	return al.Comment == name && !al.Heap && al.Block() == fn.Blocks[0] && types.Identical(al.Type().Underlying().(*types.Pointer).Elem(), res.At(i).Type())
+}
+
+// ---- parametric summaries ---------------------------------------------------
+//
+// A helper such as `func tooLong(n, limit uint64) bool { return n >= limit }`
+// or `func check(x *T) error` establishes facts about its PARAMETERS on each
+// outcome. They are kept as dynamically named atoms over "$i" (parameter i) and
+// renamed to the canonical names of the actual arguments at each call site, on
+// the edge where the result is tested.
+
+func translateDyn(dyn []Atom, call ssa.CallInstruction) []Atom {
+	ops := callOperands(call.Common())
+	var out []Atom
+	for _, a := range dyn {
+		parts := strings.Split(a, ":")
+		ok := true
+		for k, c := range parts {
+			if strings.HasPrefix(c, "$") {
+				i, err := strconv.Atoi(c[1:])
+				if err != nil || i >= len(ops) {
+					ok = false
+					break
+				}
+				parts[k] = canon(ops[i])
+			}
+		}
+		if ok {
+			out = append(out, Atom(strings.Join(parts, ":")))
+		}
+	}
+	return out
+}
+
+// paramFacts keeps the "v:" atoms of s whose operands are parameters of fn (by
+// name) or numbers, rewritten over "$i".
+func paramFacts(fn *ssa.Function, s AtomSet) map[Atom]bool {
+	out := map[Atom]bool{}
+	if s.top {
+		return out
+	}
+	idx := map[string]int{}
+	for i, p := range fn.Params {
+		idx[p.Name()] = i
+	}
+	for a := range s.m {
+		if !strings.HasPrefix(a, "v:") || strings.Contains(a, "=>") {
+			continue
+		}
+		parts := strings.Split(a, ":")
+		if len(parts) < 3 {
+			continue
+		}
+		ok, any := true, false
+		for k := 2; k < len(parts); k++ {
+			c := parts[k]
+			if i, isParam := idx[c]; isParam {
+				parts[k] = "$" + strconv.Itoa(i)
+				any = true
+				continue
+			}
+			if _, err := strconv.ParseInt(c, 10, 64); err == nil {
+				continue
+			}
+			ok = false
+			break
+		}
+		if ok && any {
+			out[Atom(strings.Join(parts, ":"))] = true
+		}
+	}
+	return out
+}
+
+func meetFacts(acc map[Atom]bool, first bool, s map[Atom]bool) map[Atom]bool {
+	if first {
+		return s
+	}
+	for a := range acc {
+		if !s[a] {
+			delete(acc, a)
+		}
+	}
+	return acc
+}
+
+func sortedFacts(m map[Atom]bool) []Atom {
+	var l []Atom
+	for a := range m {
+		l = append(l, a)
+	}
+	sort.Strings(l)
+	return l
+}
+
+func sameFacts(a, b []Atom) bool {
+	if len(a) != len(b) {
+		return false
+	}
+	for i := range a {
+		if a[i] != b[i] {
+			return false
+		}
+	}
+	return true
+}
+
+// summarizeDyn recomputes the parametric summaries of fn; reports a change.
+func (f *Flow) summarizeDyn(fn *ssa.Function) bool {
+	if !f.RS.hasDyn() {
+		return false
+	}
+	changed := false
+	set := func(kind string, i int, facts map[Atom]bool) {
+		l := sortedFacts(facts)
+		if f.dyn[kind][fn] == nil {
+			f.dyn[kind][fn] = map[int][]Atom{}
+		}
+		if !sameFacts(l, f.dyn[kind][fn][i]) {
+			f.dyn[kind][fn][i] = l
+			changed = true
+		}
+	}
+	m := f.matcherFor(fn)
+	res := fn.Signature.Results()
+	for i := 0; i < res.Len(); i++ {
+		t := res.At(i).Type()
+		switch {
+		case isErrorType(t):
+			var acc map[Atom]bool
+			first := true
+			for _, sr := range f.successReturns(fn, i) {
+				acc = meetFacts(acc, first, paramFacts(fn, sr.State))
+				first = false
+			}
+			if first {
+				acc = map[Atom]bool{}
+			}
+			set("err", i, acc)
+		case isBool(t):
+			var accT, accF map[Atom]bool
+			firstT, firstF := true, true
+			addT := func(s AtomSet) { accT = meetFacts(accT, firstT, paramFacts(fn, f.close(s))); firstT = false }
+			addF := func(s AtomSet) { accF = meetFacts(accF, firstF, paramFacts(fn, f.close(s))); firstF = false }
+			for _, b := range fn.Blocks {
+				if b == fn.Recover {
+					continue
+				}
+				ret, ok := b.Instrs[len(b.Instrs)-1].(*ssa.Return)
+				if !ok {
+					continue
+				}
+				if _, reached := f.in[b]; !reached {
+					continue
+				}
+				st := f.StateAt(ret)
+				if st.top {
+					continue
+				}
+				rv := returnValue(ret, i)
+				contribute := func(v ssa.Value, s AtomSet) {
+					if c, ok := v.(*ssa.Const); ok && c.Value != nil {
+						if c.Value.ExactString() == "true" {
+							addT(s)
+						} else {
+							addF(s)
+						}
+						return
+					}
+					g, gs := f.condGen(m, v)
+					sT, deadT := f.applySums(s.with(g[0]...), gs[0])
+					if !deadT {
+						addT(sT)
+					}
+					sF, deadF := f.applySums(s.with(g[1]...), gs[1])
+					if !deadF {
+						addF(sF)
+					}
+				}
+				if phi, ok := rv.(*ssa.Phi); ok && phi.Block() == b {
+					for j, e := range phi.Edges {
+						es, reached := f.edgeSt[[2]*ssa.BasicBlock{b.Preds[j], b}]
+						if !reached || es.top {
+							continue
+						}
+						contribute(e, es)
+					}
+					continue
+				}
+				contribute(rv, st)
+			}
+			if firstT {
+				accT = map[Atom]bool{}
+			}
+			if firstF {
+				accF = map[Atom]bool{}
+			}
+			set("true", i, accT)
+			set("false", i, accF)
+		}
+	}
+	return changed
+}
+
+func (rs *RuleSet) hasDyn() bool {
+	for _, ad := range rs.Atoms {
+		if ad.EdgeDyn != nil {
+			return true
+		}
+	}
+	return false
 }
